@@ -238,7 +238,7 @@ def check(tier):
     binp = lib.build("c31")
     v = lib.Verdict(PID)
     quick = tier == "quick"
-    nb = 1500 if quick else 40000
+    nb = 1500 if quick else 20000
     w_big = 4 if quick else max(4, lib.NCPU - 4)
     with lib.Scratch() as sc:
         with cf.ThreadPoolExecutor(max_workers=5) as ex:
